@@ -18,6 +18,7 @@ pub fn draw_plan(rng: &mut Rng, bytes: &[u8], p_fault: u32) -> Plan {
     let mut p = Plan::draw_transparent(rng, bytes);
     if rng.pct(p_fault) {
         p.fault = Plan::draw_fault(rng, bytes);
+        p.io_once = rng.pct(30);
     }
     p
 }
